@@ -1,5 +1,7 @@
 """Shared driver of the E-stream family: one request with a simulated body
 stream through Ombott.__call__ (real code end to end), handler records what it saw."""
+import zlib
+
 from .stream import SimStream, SimHang, temp_seam
 from .wsgi import make_environ, call_app, ErrStream
 from .sched import no_preempt
@@ -84,7 +86,7 @@ def _canon_files_round_robin(req, k):
 
 
 def body_request(wire, sched, *, B, M=None, cl=None, chunked=False, ctype=None, tempmode='real',
-                 touch=('body',), endless=None, max_calls=None, propagate=True, method='POST', retry=False):
+                 touch=('body',), endless=None, max_calls=None, propagate=True, method='POST', retry=False, cfgvia=None):
     """Serve one request whose body stream is SimStream(wire, sched)."""
     import ombott
     o = Obs()
@@ -96,12 +98,22 @@ def body_request(wire, sched, *, B, M=None, cl=None, chunked=False, ctype=None, 
     cfg = {'max_memfile_size': B}
     if M is not None:
         cfg['max_body_size'] = M
+    if cfgvia is None:
+        # both ways of configuring an application must behave alike; which one a run uses is a pure function of its wire
+        cfgvia = 'setup' if zlib.crc32(bytes(wire[:256])) % 4 == 0 else 'ctor'
+
+    def make_app():
+        if cfgvia == 'setup':
+            a = ombott.Ombott()
+            a.setup(dict(cfg))
+            return a
+        return ombott.Ombott(cfg)
     path = '/x'
     if SHARED['on']:
         # concurrent twin run: all threads of the run serve through one application
         with no_preempt():
             if SHARED['app'] is None:
-                SHARED['app'] = ombott.Ombott(cfg)
+                SHARED['app'] = make_app()
                 SHARED['cfg'] = cfg
                 SHARED['handlers'] = {}
                 # one route for all threads of the run, registered before any of them serves
@@ -114,7 +126,7 @@ def body_request(wire, sched, *, B, M=None, cl=None, chunked=False, ctype=None, 
             SHARED['n'] += 1
             path = '/x/%d' % SHARED['n']
     else:
-        app = ombott.Ombott(cfg)
+        app = make_app()
     with temp_seam(tempmode) as seam:
 
         def handler():
@@ -129,6 +141,12 @@ def body_request(wire, sched, *, B, M=None, cl=None, chunked=False, ctype=None, 
                         b2 = req.body
                         seen['body2'] = b2.read()
                         seen['body_same_obj'] = b2 is b
+                    elif t == 'copy_body':
+                        # a copy taken after the body was consumed (position at the end) and after a partial read
+                        seen['copy_body'] = req.copy().body.read()
+                        b = req.body
+                        b.read(3)
+                        seen['copy_body_partial'] = req.copy().body.read()
                     elif t == 'input':
                         inp = req.environ['wsgi.input']
                         inp.seek(0)
@@ -156,13 +174,24 @@ def body_request(wire, sched, *, B, M=None, cl=None, chunked=False, ctype=None, 
                     # an application (or its error handler) that touches the body again after the failure:
                     # the failure must stick, the stream must not be consumed any further
                     seen['retry_calls_before'] = stream.n_calls
-                    try:
-                        seen['retry_body'] = req.body.read()
-                    except SimHang as e2:
-                        o.hang = e2
-                        raise
-                    except BaseException as e2:   # noqa
-                        seen['retry_exc'] = e2
+                    for _attempt in range(int(retry)):
+                        try:
+                            seen['retry_body'] = req.body.read()
+                            break
+                        except SimHang as e2:
+                            o.hang = e2
+                            raise
+                        except BaseException as e2:   # noqa
+                            seen['retry_exc'] = e2
+                    if 'retry_body' not in seen:
+                        # a copy of the request must not resume the half-read stream either
+                        try:
+                            seen['retry_body'] = req.copy().body.read()
+                        except SimHang as e2:
+                            o.hang = e2
+                            raise
+                        except BaseException as e2:   # noqa
+                            seen['retry_copy_exc'] = e2
                     seen['retry_calls_after'] = stream.n_calls
                 raise
             return 'ok'
